@@ -594,7 +594,8 @@ class TLSConnection(TLSRecordLayer):
         # If the server elected to resume the session, it is handled here.
         for result in self._clientResume(session, serverHello,
                         clientHello.random,
-                        nextProto, settings):
+                        nextProto, settings,
+                        clientHello.session_id):
             if result in (0, 1): yield result
             else: break
 
@@ -858,6 +859,10 @@ class TLSConnection(TLSRecordLayer):
             for cached_ticket in session.tls_1_0_tickets:
                 extensions.append(SessionTicketExtension().create(
                     cached_ticket.ticket))
+                # the server confirms that it accepted the ticket by echoing
+                # the session ID, so make sure there is one (RFC 5077, 3.4)
+                if not session.sessionID and not session_id:
+                    session_id = getRandomBytes(32)
                 break
             else:
                 # or just advertise that we support session resumption
@@ -1787,11 +1792,15 @@ class TLSConnection(TLSRecordLayer):
         return None
 
     def _clientResume(self, session, serverHello, clientRandom,
-                      nextProto, settings):
+                      nextProto, settings, offered_session_id=None):
 
+        # the server accepted the session ID or the session ticket if it
+        # echoed the session ID from ClientHello, otherwise it's a full
+        # handshake
         if session and ((session.sessionID and \
             serverHello.session_id == session.sessionID) or
-            session.tls_1_0_tickets):
+            (session.tls_1_0_tickets and offered_session_id and
+             serverHello.session_id == offered_session_id)):
 
             if serverHello.cipher_suite != session.cipherSuite:
                 for result in self._sendError(\
